@@ -1172,6 +1172,19 @@ func (c *Compiler) adjustJumpTargets(headerOffset uint32) {
 		opcode := c.code[i]
 		i++
 
+		if opcode == byte(vm.OpAsync) {
+			// An async body follows its length operand inline. The VM runs it on
+			// its own with the program counter starting at 0, so the jump targets
+			// inside it are relative to the body and must not be shifted by the
+			// header size: skip the whole body.
+			if i+4 <= len(c.code) {
+				i += 4 + int(binary.LittleEndian.Uint32(c.code[i:i+4]))
+			} else {
+				i += 4
+			}
+			continue
+		}
+
 		if jumpOpcodes[opcode] {
 			// Read the current operand (4 bytes, little-endian)
 			if i+4 <= len(c.code) {
